@@ -113,24 +113,36 @@ func (c *FnCtx) instr(ins ssa.Instruction) {
 			bs = append(bs, c.v(b))
 		}
 		id := c.freshConst("closure", SInt)
+		c.fact(fmt.Sprintf("(not (= %s 0))", id))
 		c.bind(x, Val{T: id, S: SInt, Fn: &FnVal{Fn: fn, Bindings: bs}, GT: x.Type()})
+		if spec := c.E.Specs.Funcs[fnKey(fn)]; spec != nil && len(spec.Requires) > 0 {
+			// preconditions of a closure over its captured variables are obliged where it is created
+			names := c.calleeEnv(fn, bs, nil)
+			for i, cl := range spec.Requires {
+				env := &specEnv{c: c, vars: names, st: c.st, old: c.st, bound: map[string]Val{}}
+				t, err := env.evalBool(cl.Expr)
+				if err != nil {
+					c.note("closure precondition mentions a parameter: checked only where statically called")
+					continue
+				}
+				o := c.oblige("closure-precondition", t, fmt.Sprintf("%s/requires%d", fnKey(fn), i+1), x.Pos())
+				o.Props = cl.Props
+			}
+		}
 	case *ssa.MakeInterface:
 		c.makeInterface(x)
 	case *ssa.MakeMap:
-		mt := types.Unalias(x.Type()).Underlying().(*types.Map)
-		ks, vs := c.M.SortOf(mt.Key()), c.M.SortOf(mt.Elem())
+		mn, dn, ks, _, _ := c.M.MapHeaps(x.Type())
 		r := c.allocRef("newmap")
-		dn := "D|" + string(ks) + "|" + string(vs)
-		c.heapSort("M|" + string(ks) + "|" + string(vs))
+		c.heapSort(mn)
 		c.setH(dn, fmt.Sprintf("(store %s %s ((as const (Array %s Bool)) false))", c.H(dn), r, ks))
 		c.bind(x, Val{T: r, S: SInt, GT: x.Type()})
 	case *ssa.MakeSlice:
 		st := types.Unalias(x.Type()).Underlying().(*types.Slice)
-		es := c.M.SortOf(st.Elem())
+		hn, es := c.M.SliceHeap(st.Elem())
 		ln, cp := c.v(x.Len), c.v(x.Cap)
 		c.oblige("makeslice", fmt.Sprintf("(and (>= %s 0) (<= %s %s))", ln.T, ln.T, cp.T), "", x.Pos())
 		r := c.allocRef("newslice")
-		hn := "S|" + string(es)
 		c.setH(hn, fmt.Sprintf("(store %s %s ((as const (Array Int %s)) %s))", c.H(hn), r, es, c.M.Zero(es)))
 		c.define(x, fmt.Sprintf("(mk_slice %s 0 %s %s)", r, ln.T, cp.T), SSlice)
 	case *ssa.Next:
@@ -216,11 +228,10 @@ func (c *FnCtx) alloc(x *ssa.Alloc) {
 	if si := c.M.Struct(es); si != nil {
 		c.storeStructPath(si, r, nil, c.M.Zero(es))
 	} else if at, ok := types.Unalias(et).Underlying().(*types.Array); ok {
-		ees := c.M.SortOf(at.Elem())
-		hn := "S|" + string(ees)
+		hn, ees := c.M.SliceHeap(at.Elem())
 		c.setH(hn, fmt.Sprintf("(store %s %s ((as const (Array Int %s)) %s))", c.H(hn), r, ees, c.M.Zero(ees)))
 	} else {
-		hn := "H|" + string(es)
+		hn, _ := c.M.CellHeap(et)
 		c.setH(hn, fmt.Sprintf("(store %s %s %s)", c.H(hn), r, c.M.Zero(es)))
 	}
 	c.bind(x, Val{T: r, S: SInt, GT: x.Type()})
@@ -239,7 +250,7 @@ func (c *FnCtx) store(x *ssa.Store) {
 	}
 	if pl.Kind == PElem && pl.Idx == "" {
 		// *arrayptr = arrayvalue
-		hn := "S|" + string(pl.BaseSort)
+		hn := pl.Heap
 		c.setH(hn, fmt.Sprintf("(store %s %s %s)", c.H(hn), pl.Ref, vt))
 		return
 	}
@@ -254,7 +265,7 @@ func (c *FnCtx) unop(x *ssa.UnOp) {
 		c.nilCheck(addr, "*"+x.X.Name(), x.Pos())
 		pl := c.placeOfPointer(addr, x.X.Type())
 		if pl.Kind == PElem && pl.Idx == "" {
-			hn := "S|" + string(pl.BaseSort)
+			hn := pl.Heap
 			c.define(x, fmt.Sprintf("(select %s %s)", c.H(hn), pl.Ref), pl.Sort)
 			return
 		}
@@ -443,7 +454,8 @@ func (c *FnCtx) convert(x *ssa.Convert) {
 		st := types.Unalias(from).Underlying().(*types.Slice)
 		n := c.freshConst("str_of_slice", SStr)
 		if eb, ok := types.Unalias(st.Elem()).Underlying().(*types.Basic); ok && eb.Kind() == types.Uint8 {
-			h := c.H("S|Int")
+			bh, _ := c.M.SliceHeap(st.Elem())
+			h := c.H(bh)
 			c.fact(fmt.Sprintf("(= (slen %s) (s_len %s))", n, v.T))
 			c.fact(fmt.Sprintf("(forall ((i Int)) (! (=> (and (<= 0 i) (< i (s_len %s))) (= (sat %s i) (select (select %s (s_ref %s)) (+ (s_off %s) i)))) :pattern ((sat %s i))))", v.T, n, h, v.T, v.T, n))
 		} else {
@@ -454,7 +466,7 @@ func (c *FnCtx) convert(x *ssa.Convert) {
 		st := types.Unalias(to).Underlying().(*types.Slice)
 		r := c.allocRef("bytes")
 		row := c.freshConst("row", "(Array Int Int)")
-		hn := "S|Int"
+		hn, _ := c.M.SliceHeap(st.Elem())
 		var ln string
 		if eb, ok := types.Unalias(st.Elem()).Underlying().(*types.Basic); ok && eb.Kind() == types.Uint8 {
 			ln = "(slen " + v.T + ")"
@@ -572,10 +584,10 @@ func (c *FnCtx) indexAddr(x *ssa.IndexAddr) {
 	detail := x.X.Name() + "[" + x.Index.Name() + "]"
 	switch u := types.Unalias(x.X.Type()).Underlying().(type) {
 	case *types.Slice:
-		es := c.M.SortOf(u.Elem())
+		hn, es := c.M.SliceHeap(u.Elem())
 		c.oblige("index", fmt.Sprintf("(and (>= %s 0) (< %s (s_len %s)))", i.T, i.T, a.T), detail, x.Pos())
 		idx := fmt.Sprintf("(+ (s_off %s) %s)", a.T, i.T)
-		c.bind(x, Val{S: SInt, GT: x.Type(), Place: &Place{Kind: PElem, Ref: "(s_ref " + a.T + ")", Idx: idx, BaseSort: es, Sort: es, GoType: u.Elem()}})
+		c.bind(x, Val{S: SInt, GT: x.Type(), Place: &Place{Kind: PElem, Heap: hn, Ref: "(s_ref " + a.T + ")", Idx: idx, BaseSort: es, Sort: es, GoType: u.Elem()}})
 	case *types.Pointer:
 		at := types.Unalias(u.Elem()).Underlying().(*types.Array)
 		es := c.M.SortOf(at.Elem())
@@ -587,7 +599,7 @@ func (c *FnCtx) indexAddr(x *ssa.IndexAddr) {
 			c.bind(x, c.havocVal("iaddr", x.Type()))
 			return
 		}
-		c.bind(x, Val{S: SInt, GT: x.Type(), Place: &Place{Kind: PElem, Ref: pl.Ref, Idx: i.T, BaseSort: es, Sort: es, GoType: at.Elem()}})
+		c.bind(x, Val{S: SInt, GT: x.Type(), Place: &Place{Kind: PElem, Heap: pl.Heap, Ref: pl.Ref, Idx: i.T, BaseSort: es, Sort: es, GoType: at.Elem()}})
 	default:
 		c.bind(x, c.havocVal("iaddr", x.Type()))
 	}
@@ -598,6 +610,11 @@ func (c *FnCtx) mapSortsOf(t types.Type) (Sort, Sort, *types.Map) {
 	return c.M.SortOf(mt.Key()), c.M.SortOf(mt.Elem()), mt
 }
 
+func isTypeParam(t types.Type) bool {
+	_, ok := types.Unalias(t).(*types.TypeParam)
+	return ok
+}
+
 func (c *FnCtx) lookup(x *ssa.Lookup) {
 	a, k := c.v(x.X), c.v(x.Index)
 	if a.S == SStr {
@@ -605,13 +622,13 @@ func (c *FnCtx) lookup(x *ssa.Lookup) {
 		c.define(x, fmt.Sprintf("(sat %s %s)", a.T, k.T), SInt)
 		return
 	}
-	ks, vs, mt := c.mapSortsOf(x.X.Type())
-	if ks == SAny {
+	mhn, dhn, ks, vs, mt := c.M.MapHeaps(x.X.Type())
+	if ks == SAny && !isTypeParam(mt.Key()) {
 		// interface-typed key: hashing an uncomparable dynamic type panics
 		c.oblige("mapkey", fmt.Sprintf("(not (or ((_ is a_map) %s) ((_ is a_mapaa) %s) ((_ is a_list) %s)))", k.T, k.T, k.T), x.Index.Name(), x.Pos())
 	}
-	m := c.H("M|" + string(ks) + "|" + string(vs))
-	d := c.H("D|" + string(ks) + "|" + string(vs))
+	m := c.H(mhn)
+	d := c.H(dhn)
 	ok := c.nameBool(c.newName("has"), fmt.Sprintf("(and (not (= %s 0)) (select (select %s %s) %s))", a.T, d, a.T, k.T))
 	val := c.freshConst("mv", vs)
 	c.fact(fmt.Sprintf("(= %s (ite %s (select (select %s %s) %s) %s))", val, ok, m, a.T, k.T, c.M.Zero(vs)))
@@ -625,16 +642,15 @@ func (c *FnCtx) lookup(x *ssa.Lookup) {
 
 func (c *FnCtx) mapUpdate(x *ssa.MapUpdate) {
 	m, k, v := c.v(x.Map), c.v(x.Key), c.v(x.Value)
-	ks, vs, _ := c.mapSortsOf(x.Map.Type())
+	mn, dn, ks, vs, mt := c.M.MapHeaps(x.Map.Type())
 	c.oblige("nilmap", fmt.Sprintf("(not (= %s 0))", m.T), x.Map.Name()+"["+x.Key.Name()+"]=", x.Pos())
-	if ks == SAny {
+	if ks == SAny && !isTypeParam(mt.Key()) {
 		c.oblige("mapkey", fmt.Sprintf("(not (or ((_ is a_map) %s) ((_ is a_mapaa) %s) ((_ is a_list) %s)))", k.T, k.T, k.T), x.Key.Name(), x.Pos())
 	}
 	vt := v.T
 	if vt == "" {
 		vt = c.freshConst("opaque", vs)
 	}
-	mn, dn := "M|"+string(ks)+"|"+string(vs), "D|"+string(ks)+"|"+string(vs)
 	c.checkWriteRow(mn, m.T, x.Pos())
 	c.setH(mn, fmt.Sprintf("(store %s %s (store (select %s %s) %s %s))", c.H(mn), m.T, c.H(mn), m.T, k.T, vt))
 	c.setH(dn, fmt.Sprintf("(store %s %s (store (select %s %s) %s true))", c.H(dn), m.T, c.H(dn), m.T, k.T))
@@ -716,11 +732,11 @@ func (c *FnCtx) next(x *ssa.Next) {
 		c.bind(x, Val{S: "Tuple", Tup: []Val{{T: ok, S: SBool}, {T: pos, S: SInt, GT: types.Typ[types.Int]}, {T: r, S: SInt, GT: types.Typ[types.Rune]}}})
 		return
 	}
-	ks, vs, mt := c.mapSortsOf(it.GoType)
+	mhn, dhn, ks, vs, mt := c.M.MapHeaps(it.GoType)
 	m := it.X.T
 	k := c.freshConst("nx_k", ks)
-	mh := c.H("M|" + string(ks) + "|" + string(vs))
-	dh := c.H("D|" + string(ks) + "|" + string(vs))
+	mh := c.H(mhn)
+	dh := c.H(dhn)
 	seen := l.SeenIn
 	c.fact(fmt.Sprintf("(=> %s (and (not (= %s 0)) (select (select %s %s) %s) (not (select %s %s))))", ok, m, dh, m, k, seen, k))
 	c.fact(fmt.Sprintf("(=> (not %s) (forall ((qk %s)) (! (=> (and (not (= %s 0)) (select (select %s %s) qk)) (select %s qk)) :pattern ((select (select %s %s) qk)) :pattern ((select %s qk)))))", ok, ks, m, dh, m, seen, dh, m, seen))
